@@ -97,7 +97,13 @@ def ops12 : List (String × Op) := [
     let U ← field j "U" >>= asList asRatMat
     let Rk ← field j "R" >>= asNat
     let k ← field j "k" >>= asNat
-    .ok (ratMatJ (mttkrpDef T U Rk k))),
+    let V := mttkrpDef T U Rk k
+    -- a Kruskal operand: its weights scale the columns
+    match fieldOpt j "weights" with
+    | none => .ok (ratMatJ V)
+    | some wj => do
+      let w ← asRats wj
+      .ok (ratMatJ (scaleCols V w))),
   ("gcp_helper", fun j => do
     let U ← field j "factors" >>= asList asRatMat
     let subs ← field j "subs" >>= asNatMat
